@@ -69,6 +69,9 @@ def obligations(tier):
                 for rot in (0, 1, 2, 3):
                     obs.append({'h': 'batch', 'ck': ck, 'dk': dk, 'note': note, 'comp': list(comp), 'rot': rot, 'strict': True,
                                 '_weight': 3 ** n})
+                if n <= 2:
+                    obs.append({'h': 'batch', 'ck': ck, 'dk': dk, 'note': note, 'comp': list(comp), 'rot': 0, 'strict': False,
+                                '_weight': 3 ** n})
     for (ck, dk), gen, shape in it.product((('sync', 'sync'), ('async', 'async')), ('sequential', 'randint', 'random', 'uuid'), ('call', 'batch2')):
         obs.append({'h': 'idgen', 'ck': ck, 'dk': dk, 'gen': gen, 'shape': shape})
     return obs
